@@ -164,10 +164,18 @@ def run_job(job):
             raise ValueError(job["kind"])
         t_run = time.time() - t0 - lock_wait
         snap = artefacts.snapshot(ws, job.get("in_roots", ())) if os.path.isdir(ws) else {}
+        # what was given to lian (harness self-check: both runs of a pair must have been handed the same bytes); lian's own
+        # copy under <ws>/src is NOT used for this: what ends up there is lian's doing (e.g. stale files after --force)
         src = {}
-        if os.path.isdir(ws):
-            for rel in artefacts.list_files(ws, artefacts.INPUT_COPY_DIRS):
-                src[rel] = artefacts.sha_file(os.path.join(ws, rel))
+        for ip in job["in_paths"]:
+            if os.path.isfile(ip):
+                src[os.path.basename(ip)] = artefacts.sha_file(ip)
+            else:
+                for r, dn, fn in os.walk(ip):
+                    for n in fn:
+                        q = os.path.join(r, n)
+                        if os.path.isfile(q) and not os.path.islink(q):
+                            src[os.path.relpath(q, os.path.dirname(ip.rstrip("/")))] = artefacts.sha_file(q)
         top = sorted(os.listdir(ws)) if os.path.isdir(ws) else []
         keep = job.get("keep")
         if keep and os.path.isdir(ws):
